@@ -63,6 +63,7 @@ package main
 
 import (
 	"fmt"
+	"os"
 	"runtime"
 	"strings"
 	"sync"
@@ -121,6 +122,10 @@ type world struct {
 	removed       []bool
 	doubleRemoved bool
 	pendingViol   string // verdict of an event (traverser return, panic) during this op
+	// pushrm bookkeeping: the element pushed and removed by the current op, and
+	// whether a traverser was handed it (= it ran between the two calls)
+	pairElem *clist.CElement
+	raced    bool
 }
 
 var w *world
@@ -136,7 +141,24 @@ func newWorld() *world {
 	return x
 }
 
+// self-test knob: with VERIF_C49_YIELD=1 the first attempt of every pushrm (per position
+// in its case) yields between PushBack and Remove, so the discard-and-replay path of exec
+// runs; the output must not change.
+var forceYield = os.Getenv("VERIF_C49_YIELD") == "1"
+var yielded = map[int]bool{}
+
+// history: the op lines of the current case that were executed on w (for rebuild).
+var history [][]string
+
 func reset() {
+	history = nil
+	yielded = map[int]bool{}
+	abandon()
+	w = newWorld()
+}
+
+// abandon lets the blocked traversers of w go.
+func abandon() {
 	if w != nil && !w.poisoned {
 		// let blocked traversers of the previous case go: a push wakes FrontWait
 		// and the NextWait on the tail.
@@ -153,7 +175,46 @@ func reset() {
 			}()
 		}
 	}
+}
+
+// rebuild replays the case so far on a fresh list (used when a pushrm pair was
+// interleaved, see exec); false if a replayed pushrm was interleaved itself.
+func rebuild() bool {
+	abandon()
 	w = newWorld()
+	for _, h := range history {
+		execOnce(h)
+		if w.raced {
+			return false
+		}
+	}
+	return true
+}
+
+// exec runs one op.  `pushrm` needs the woken waiter NOT to run between PushBack
+// and Remove.  One P and no yield make that the rule, but not a guarantee: if the
+// OS takes the thread away for more than the scheduler's 10 ms time slice inside
+// the pair, sysmon preempts the harness goroutine and the waiter runs in between —
+// on correct code it is then handed the new element (the only way it can be handed
+// that element at all, since after the Remove neither Front() nor the tail's next
+// is that element).  That is a legal schedule but not the one the op is meant to
+// produce (and the model does not produce), so the attempt is discarded: the case is
+// replayed on a fresh list and the op retried.  An implementation that hands out the
+// removed element every time is reported after three attempts.
+func exec(t []string) (string, string) {
+	impl, orc := execOnce(t)
+	for try := 0; w.raced && try < 3; try++ {
+		if os.Getenv("VERIF_TRACE") != "" {
+			fmt.Fprintf(os.Stderr, "c49: pushrm pair was interleaved (attempt %d), replaying %d ops\n", try+1, len(history))
+		}
+		for i := 0; i < 5 && !rebuild(); i++ {
+		}
+		impl, orc = execOnce(t)
+	}
+	if len(t) > 0 && t[0] != "stress" {
+		history = append(history, t)
+	}
+	return impl, orc
 }
 
 // ---------------------------------------------------------------- observation
@@ -281,6 +342,9 @@ func (x *world) viol(class, detail string) {
 
 // arrive judges a value handed to traverser t (front = by FrontWait) and records it.
 func (x *world) arrive(t *trav, r *clist.CElement, front bool) {
+	if r != nil && r == x.pairElem {
+		x.raced = true
+	}
 	if r == nil {
 		if front {
 			x.viol("nil-live", "FrontWait returned nil")
@@ -508,12 +572,13 @@ func (x *world) finish(res string) (string, string) {
 	return res + " | " + x.dump(), x.verdict()
 }
 
-func exec(t []string) (string, string) {
+func execOnce(t []string) (string, string) {
+	x := w
+	x.pendingViol = ""
+	x.pairElem, x.raced = nil, false
 	if len(t) == 0 {
 		return "err:badop", "-"
 	}
-	x := w
-	x.pendingViol = ""
 	arg := -1
 	switch t[0] {
 	case "push", "pushrm":
@@ -574,6 +639,11 @@ func exec(t []string) (string, string) {
 		res := call(func() { e = x.l.PushBack(id) })
 		res2 := ""
 		if res == "ok" {
+			if forceYield && !yielded[len(history)] {
+				// self-test (VERIF_C49_YIELD=1): interleave the first attempt on purpose
+				yielded[len(history)] = true
+				runtime.Gosched()
+			}
 			res2 = call(func() { x.l.Remove(e) })
 		}
 		runtime.GOMAXPROCS(procs)
@@ -582,6 +652,7 @@ func exec(t []string) (string, string) {
 			x.viol("wg-panic", "PushBack")
 			return res, x.verdict()
 		}
+		x.pairElem = e
 		x.elems = append(x.elems, e)
 		x.id[e] = id
 		x.removed = append(x.removed, res2 == "ok" || res2 == "panic:wg")
@@ -893,8 +964,8 @@ func boundary(o *kit.Out) {
 	c("detachnext-ends-traversal", "push", "push", "push", "tfront 0", "remove 0", "detachnext 0", "tnext 0")
 	c("stale-next", "push", "push", "push", "tfront 0", "tnext 0", "remove 1", "remove 2", "tnext 0", "tnext 0") // W1
 	c("stale-next-now", "push", "push", "push", "tfront 0", "tnextnow 0", "remove 1", "remove 2", "tnextnow 0", "tnextnow 0")
-	c("double-remove-relink", "push", "push", "push", "remove 1", "remove 2", "remove 1", "tfront 0", "tnext 0", "push", "push")   // W2
-	c("double-remove-poison", "push", "push", "push", "remove 1", "remove 0", "detachnext 0", "remove 1", "push", "tfront 0") // W3
+	c("double-remove-relink", "push", "push", "push", "remove 1", "remove 2", "remove 1", "tfront 0", "tnext 0", "push", "push") // W2
+	c("double-remove-poison", "push", "push", "push", "remove 1", "remove 0", "detachnext 0", "remove 1", "push", "tfront 0")    // W3
 	c("double-remove-head", "push", "push", "remove 0", "remove 0", "detachprev 0", "remove 0")
 	c("double-remove-tail", "push", "push", "remove 1", "remove 1", "detachnext 1", "remove 1", "push", "remove 1")
 	c("double-remove-only", "push", "remove 0", "remove 0", "push", "remove 0")
@@ -925,8 +996,8 @@ func (g *gen) randomCase(id string, nOpsMax int) {
 	// generator-side bookkeeping (only to bias choices)
 	n := 0
 	var live, gone []int
-	double := r.Chance(12)   // this case may remove an element twice
-	detachN := r.Chance(25)  // this case may DetachNext
+	double := r.Chance(12)  // this case may remove an element twice
+	detachN := r.Chance(25) // this case may DetachNext
 	nops := r.Range(1, nOpsMax)
 	for i := 0; i < nops; i++ {
 		switch p := r.Intn(100); {
